@@ -1,0 +1,13 @@
+// +build verif
+
+package txmgr
+
+// Simulation knobs, compiled only with the "verif" build tag.
+
+// simRemoveRound, when non-zero, replaces the 20000-credit size of a wallet
+// removal round, so that multi-round removals happen with small simulated
+// wallets.
+var simRemoveRound int
+
+// SimSetRemoveRound sets the removal round size (0 restores the built-in one).
+func SimSetRemoveRound(n int) { simRemoveRound = n }
